@@ -951,7 +951,82 @@ func (x *Exec) evalCall(c *ECall, env *SpecEnv) (Val, error) {
 		if v.T.Sort == "Slice" {
 			return Val{T: app(SInt, "s-ref", v.T)}, nil
 		}
+		if v.Loc != nil {
+			t, err := vc.locRef(v.Loc)
+			return Val{T: t}, err
+		}
 		return Val{T: v.T}, nil
+	case "owner":
+		// owner(p): the reference of the heap object an (interior) pointer points into
+		if err := argN(1); err != nil {
+			return Val{}, err
+		}
+		v, err := x.evalSpec(c.Args[0], env)
+		if err != nil {
+			return Val{}, err
+		}
+		if v.Loc != nil {
+			if v.Loc.Kind == LCell {
+				return Val{}, fmt.Errorf("owner() of a pointer to a local")
+			}
+			return Val{T: v.Loc.Ref}, nil
+		}
+		return Val{T: v.T}, nil
+	case "addr":
+		// addr(x.f): reference term of the embedded struct field f of x
+		if err := argN(1); err != nil {
+			return Val{}, err
+		}
+		l, err := x.evalLoc(c.Args[0], env)
+		if err != nil {
+			return Val{}, err
+		}
+		t, err := vc.locRef(l)
+		return Val{T: t}, err
+	case "as":
+		// as(T, x): the dynamic value of interface x viewed as pointer type T (meaningful when typeof(x) == typeid(T))
+		if err := argN(2); err != nil {
+			return Val{}, err
+		}
+		ty, err := x.typeExpr(c.Args[0], env)
+		if err != nil {
+			return Val{}, err
+		}
+		v, err := x.evalSpec(c.Args[1], env)
+		if err != nil {
+			return Val{}, err
+		}
+		if v.T.Sort != "Iface" {
+			return Val{}, fmt.Errorf("as() needs an interface value")
+		}
+		if !pointerShaped(ty) {
+			_, u := vc.boxFn(ty)
+			return Val{T: app(vc.sortOf(ty), u, app(SInt, "i-val", v.T)), Typ: ty}, nil
+		}
+		return Val{T: app(SInt, "i-val", v.T), Typ: ty}, nil
+	case "bseq":
+		// bseq(array, off, len): abstract byte string held in an array range
+		if err := argN(3); err != nil {
+			return Val{}, err
+		}
+		a, err := x.evalSpec(c.Args[0], env)
+		if err != nil {
+			return Val{}, err
+		}
+		o, err := x.evalSpecHint(c.Args[1], env, types.Typ[types.Int], "")
+		if err != nil {
+			return Val{}, err
+		}
+		n, err := x.evalSpecHint(c.Args[2], env, types.Typ[types.Int], "")
+		if err != nil {
+			return Val{}, err
+		}
+		as := arraySort(idxS, vc.ar.Sort(IntKind{8, false}))
+		if a.T.Sort != as {
+			return Val{}, fmt.Errorf("bseq() needs a byte array, got %s", a.T.Sort)
+		}
+		vc.decl("fun:bseq", fmt.Sprintf("(declare-fun bseq (%s %s %s) BSeq)\n(declare-fun bseq.len (BSeq) %s)", as, idxS, idxS, idxS))
+		return Val{T: app("BSeq", "bseq", a.T, o.T, n.T)}, nil
 	case "arr":
 		// arr(bs): the backing array of a slice as an SMT array (index = absolute position)
 		if err := argN(1); err != nil {
@@ -962,7 +1037,15 @@ func (x *Exec) evalCall(c *ECall, env *SpecEnv) (Val, error) {
 			return Val{}, err
 		}
 		if v.T.Sort != "Slice" {
-			return Val{}, fmt.Errorf("arr() needs a slice")
+			if v.Typ != nil {
+				if p, ok := v.Typ.Underlying().(*types.Pointer); ok {
+					if at, ok := p.Elem().Underlying().(*types.Array); ok && v.Loc == nil {
+						key, hs := vc.elemKey(at.Elem())
+						return Val{T: Select(vc.heapGet(env.st, key, hs), v.T)}, nil
+					}
+				}
+			}
+			return Val{}, fmt.Errorf("arr() needs a slice or array pointer")
 		}
 		et := types.Type(types.Typ[types.Uint8])
 		if v.Typ != nil {
@@ -1194,7 +1277,6 @@ func (vc *VC) ghostInitial(name, sort string) Term {
 func (vc *VC) byteSeq(st *State, s Term) Term {
 	idx := vc.ar.IdxSort()
 	as := arraySort(idx, vc.ar.Sort(IntKind{8, false}))
-	vc.decl("sort:BSeq", "(declare-sort BSeq 0)")
 	vc.decl("fun:bseq", fmt.Sprintf("(declare-fun bseq (%s %s %s) BSeq)\n(declare-fun bseq.len (BSeq) %s)", as, idx, idx, idx))
 	key, hs := vc.elemKey(types.Typ[types.Uint8])
 	arr := Select(vc.heapGet(st, key, hs), app(SInt, "s-ref", s))
@@ -1217,3 +1299,90 @@ func (vc *VC) bigVal(st *State, ref Term) Term {
 }
 
 var _ = token.NoPos
+
+// evalLoc evaluates x.f (f a field) to the location of the field.
+func (x *Exec) evalLoc(e Expr, env *SpecEnv) (*Loc, error) {
+	vc := x.vc
+	sel, ok := e.(*ESel)
+	if !ok {
+		// an identifier bound to an interior pointer
+		v, err := x.evalSpec(e, env)
+		if err != nil {
+			return nil, err
+		}
+		if v.Loc != nil {
+			return v.Loc, nil
+		}
+		return nil, fmt.Errorf("not a location")
+	}
+	var base Val
+	if inner, ok := sel.X.(*ESel); ok {
+		// try as location first (nested embedded structs)
+		if l, err := x.evalLoc(inner, env); err == nil {
+			if _, isStruct := vc.locType(l).Underlying().(*types.Struct); isStruct {
+				base = Val{Loc: l}
+			}
+		}
+	}
+	if base.Loc == nil {
+		v, err := x.evalSpec(sel.X, env)
+		if err != nil {
+			return nil, err
+		}
+		base = v
+	}
+	var bt types.Type
+	if base.Loc != nil {
+		bt = types.NewPointer(vc.locType(base.Loc))
+	} else {
+		bt = base.Typ
+	}
+	if bt == nil {
+		return nil, fmt.Errorf("untyped base")
+	}
+	obj, index, _ := types.LookupFieldOrMethod(bt, true, nil, sel.Name)
+	if obj == nil {
+		if n := namedOf(bt); n != nil && n.Obj().Pkg() != nil {
+			obj, index, _ = types.LookupFieldOrMethod(bt, true, n.Obj().Pkg(), sel.Name)
+		}
+	}
+	if obj == nil {
+		return nil, fmt.Errorf("no field %s", sel.Name)
+	}
+	p, ok := bt.Underlying().(*types.Pointer)
+	if !ok {
+		return nil, fmt.Errorf("base of %s is not a pointer", sel.Name)
+	}
+	curT := p.Elem()
+	var loc *Loc
+	if base.Loc != nil {
+		loc = base.Loc
+	}
+	for i, fi := range index {
+		su, ok := curT.Underlying().(*types.Struct)
+		if !ok {
+			return nil, fmt.Errorf("selection through non-struct")
+		}
+		ft := su.Field(fi).Type()
+		if loc == nil {
+			key, _ := vc.fieldKey(curT, fi)
+			loc = &Loc{Kind: LField, Key: key, Ref: base.T, RootT: ft}
+		} else {
+			loc = loc.with(PathEl{Field: fi, Name: su.Field(fi).Name(), From: curT})
+		}
+		if i < len(index)-1 {
+			if pp, isPtr := ft.Underlying().(*types.Pointer); isPtr {
+				v, err := vc.loadLoc(env.st, loc)
+				if err != nil {
+					return nil, err
+				}
+				base = Val{T: v.T, Typ: ft}
+				loc = nil
+				curT = pp.Elem()
+				continue
+			}
+		}
+		curT = ft
+	}
+	return loc, nil
+}
